@@ -1,1 +1,262 @@
-//! contract stubs (filled in later)
+//! Contract stubs: a callee's contract made executable, used through #[kani::stub] so
+//! that a caller is checked against the callee's CONTRACT, not its body. Every stub
+//! names the obligation that proves its contract against the real body; the driver only
+//! counts an obligation that uses a stub when that proving obligation is part of the
+//! same property's obligation set and discharged on the same tree.
+//!
+//! Natively (replay) no stub is active: the real callee runs.
+#![allow(static_mut_refs)]
+
+use ckc_rs::cards::five::Five;
+#[cfg(kani)]
+use ckc_rs::cards::seven::Seven;
+#[cfg(kani)]
+use ckc_rs::cards::six::Six;
+
+// ------------------------------------------------------------------ find_in_products
+// contract (proved by Verus obligation C05.find_total on the extracted real text):
+//   total for every key; result < 4888; a pure function of the key.
+#[cfg(kani)]
+pub static mut FIND_SET: bool = false;
+#[cfg(kani)]
+pub static mut FIND_KEY: usize = 0;
+#[cfg(kani)]
+pub static mut FIND_IDX: usize = 0;
+
+#[cfg(kani)]
+pub fn find_in_products_contract(key: usize) -> usize {
+    unsafe {
+        if FIND_SET && FIND_KEY == key {
+            return FIND_IDX;
+        }
+        let r: usize = kani::any();
+        kani::assume(r < 4888);
+        if !FIND_SET {
+            FIND_SET = true;
+            FIND_KEY = key;
+            FIND_IDX = r;
+        }
+        r
+    }
+}
+
+/// the index the (stubbed or real) search returns for `key`
+pub fn search_index(key: usize) -> usize {
+    #[cfg(kani)]
+    {
+        find_in_products_contract(key)
+    }
+    #[cfg(not(kani))]
+    {
+        Five::find_in_products(key)
+    }
+}
+
+// ------------------------------------------------------------------ ghost function V
+// contract of <Five as HandRanker>::hand_rank_value_and_hand on five DISTINCT REAL
+// cards drawn from a known set of at most seven cards:
+//   value in 1..=7462, depending only on the SET of cards   (C01: C01.rep_* + C01.k1 + C01.k3)
+//   the hand is returned unchanged                            (C03.five_identity)
+// V is the symbolic table of those values indexed by membership mask.
+#[cfg(kani)]
+pub static mut G_CARDS: [[u32; 7]; 2] = [[0; 7]; 2];
+#[cfg(kani)]
+pub static mut G_N: usize = 0;
+#[cfg(kani)]
+pub static mut G_PHASE: usize = 0;
+#[cfg(kani)]
+pub static mut G_VALS: [u16; 128] = [0; 128];
+#[cfg(kani)]
+pub static mut G_PRE_OK: bool = true;
+
+#[cfg(kani)]
+pub fn mask_of(a: &[u32; 5]) -> u8 {
+    let mut mask = 0u8;
+    let mut i = 0;
+    while i < 5 {
+        let mut j = 0;
+        let mut found = false;
+        while j < 7 {
+            unsafe {
+                if j < G_N && G_CARDS[G_PHASE][j] == a[i] {
+                    mask |= 1 << j;
+                    found = true;
+                }
+            }
+            j += 1;
+        }
+        if !found {
+            unsafe {
+                G_PRE_OK = false;
+            }
+        }
+        i += 1;
+    }
+    mask
+}
+
+#[cfg(kani)]
+pub fn five_vh_ghost_v(f: &Five) -> (u16, Five) {
+    let a = f.to_arr();
+    let mask = mask_of(&a);
+    unsafe {
+        if mask.count_ones() != 5 {
+            G_PRE_OK = false;
+        }
+        // the caller must respect the precondition: five distinct cards of the input
+        assert!(G_PRE_OK, "H.ghost_v.precondition_five_distinct_input_cards");
+        (G_VALS[mask as usize], *f)
+    }
+}
+
+/// The ghost function handed to obligation bodies: under Kani a symbolic table, natively
+/// the real five-card evaluation of the sub-hand.
+pub struct GhostV {
+    pub cards: [u32; 7],
+    pub n: usize,
+}
+
+impl GhostV {
+    /// installs the cards (phase 0) and, under Kani, draws V for every weight-5 mask
+    pub fn install(cards: [u32; 7], n: usize) -> GhostV {
+        #[cfg(kani)]
+        unsafe {
+            G_CARDS[0] = cards;
+            G_CARDS[1] = cards;
+            G_N = n;
+            G_PHASE = 0;
+            G_PRE_OK = true;
+            let mut m = 0usize;
+            while m < 128 {
+                if (m as u8).count_ones() == 5 && m < (1usize << n) {
+                    let v: u16 = kani::any();
+                    kani::assume(v >= 1 && v <= 7462);
+                    G_VALS[m] = v;
+                }
+                m += 1;
+            }
+        }
+        GhostV { cards, n }
+    }
+
+    /// second card set (e.g. the suit-shifted cards): the same V applies to it, which is
+    /// exactly the five-card clause "value unchanged by shifting" (C08.five_triple + C01.k3)
+    #[allow(unused_variables)]
+    pub fn install_phase1(&self, cards: [u32; 7]) {
+        #[cfg(kani)]
+        unsafe {
+            G_CARDS[1] = cards;
+        }
+    }
+
+    #[allow(unused_variables)]
+    pub fn set_phase(&self, p: usize) {
+        #[cfg(kani)]
+        unsafe {
+            G_PHASE = p;
+        }
+    }
+
+    /// V of the sub-hand selected by `mask`
+    pub fn v(&self, mask: u8) -> u16 {
+        #[cfg(kani)]
+        unsafe {
+            G_VALS[mask as usize]
+        }
+        #[cfg(not(kani))]
+        {
+            use ckc_rs::cards::HandRanker;
+            let mut a = [0u32; 5];
+            let mut k = 0;
+            let mut j = 0;
+            while j < self.n {
+                if mask & (1 << j) != 0 && k < 5 {
+                    a[k] = self.cards[j];
+                    k += 1;
+                }
+                j += 1;
+            }
+            Five::from(a).hand_rank_value()
+        }
+    }
+
+    /// membership mask of a five-card hand w.r.t. the installed cards (None if a word is
+    /// not one of them)
+    pub fn mask(&self, a: &[u32; 5]) -> Option<u8> {
+        let mut mask = 0u8;
+        let mut i = 0;
+        while i < 5 {
+            let mut j = 0;
+            let mut found = false;
+            while j < 7 {
+                if j < self.n && self.cards[j] == a[i] {
+                    mask |= 1 << j;
+                    found = true;
+                }
+                j += 1;
+            }
+            if !found {
+                return None;
+            }
+            i += 1;
+        }
+        Some(mask)
+    }
+}
+
+// ------------------------------------------------------------------ total five-card contract
+// contract of <Five as HandRanker>::hand_rank_value_and_hand on five card-or-blank
+// slots with any repetition (proved by C05.five_safe + C03.five_identity):
+//   returns normally; value <= 7462; the hand is returned unchanged.
+#[cfg(kani)]
+pub fn five_vh_total(f: &Five) -> (u16, Five) {
+    let v: u16 = kani::any();
+    kani::assume(v <= 7462);
+    (v, *f)
+}
+
+// ------------------------------------------------------------------ "some value" contracts
+// For obligations about what the *wrappers* (hand_rank, hand_rank_value, *_validated,
+// evaluate::five_cards) do with the result of hand_rank_value_and_hand: the callee
+// returns a value fixed by the harness and its input hand.
+#[cfg(kani)]
+pub static mut G_VAL: u16 = 0;
+#[cfg(kani)]
+pub static mut G_HAND: [u32; 5] = [0; 5];
+#[cfg(kani)]
+pub static mut G_CALLS: u32 = 0;
+
+#[cfg(kani)]
+pub fn five_vh_fixed(f: &Five) -> (u16, Five) {
+    unsafe {
+        G_CALLS += 1;
+        (G_VAL, *f)
+    }
+}
+
+#[cfg(kani)]
+pub fn six_vh_fixed(_h: &Six) -> (u16, Five) {
+    unsafe {
+        G_CALLS += 1;
+        (G_VAL, Five::from(G_HAND))
+    }
+}
+
+#[cfg(kani)]
+pub fn seven_vh_fixed(_h: &Seven) -> (u16, Five) {
+    unsafe {
+        G_CALLS += 1;
+        (G_VAL, Five::from(G_HAND))
+    }
+}
+
+/// sets the value the fixed stubs return (no-op natively)
+#[allow(unused_variables)]
+pub fn set_fixed(v: u16, hand: [u32; 5]) {
+    #[cfg(kani)]
+    unsafe {
+        G_VAL = v;
+        G_HAND = hand;
+        G_CALLS = 0;
+    }
+}
